@@ -32,8 +32,26 @@ func envOr(k, d string) string {
 
 // buildOverlay maps every file under /verif/harness to the same relative path under /repo.
 // Files carrying the replay build tag are left out for the engine (it loads the symbolic stubs).
-func buildOverlay(forReplay bool) map[string][]byte {
+func buildOverlay(forReplay bool) map[string][]byte { return buildOverlayFor("") }
+
+// buildOverlayFor: dir != "" additionally maps the verifrt package into <dir>/zzverif/verifrt, because a
+// package directory that exists only in the overlay is not found inside a replaced dependency module.
+func buildOverlayFor(dir string) map[string][]byte {
 	ov := map[string][]byte{}
+	defer func() {
+		if dir == "" {
+			return
+		}
+		rtDir := filepath.Join(verifRoot, "harness", "zzverif", "verifrt")
+		ents, _ := os.ReadDir(rtDir)
+		for _, e := range ents {
+			if strings.HasSuffix(e.Name(), ".go") {
+				if b, err := os.ReadFile(filepath.Join(rtDir, e.Name())); err == nil {
+					ov[filepath.Join(repoRoot, dir, "zzverif", "verifrt", e.Name())] = b
+				}
+			}
+		}
+	}()
 	root := filepath.Join(verifRoot, "harness")
 	filepath.Walk(root, func(p string, info os.FileInfo, err error) error {
 		if err != nil || info.IsDir() || !strings.HasSuffix(p, ".go") {
@@ -54,7 +72,7 @@ func loadProgram(dir string, pkgPatterns []string) (*ssa.Program, []*ssa.Package
 	loadDir := filepath.Join(repoRoot, dir)
 	cfg := &packages.Config{Mode: packages.LoadAllSyntax, Dir: loadDir,
 		Env:     append(os.Environ(), "GOFLAGS=-mod=mod", "GOPROXY=off", "GOSUMDB=off", "GOTOOLCHAIN=local"),
-		Overlay: buildOverlay(false)}
+		Overlay: buildOverlayFor(dir)}
 	pkgs, err := packages.Load(cfg, pkgPatterns...)
 	if err != nil {
 		return nil, nil, err
@@ -86,7 +104,7 @@ func setupEngine(prog *ssa.Program) *Engine {
 				all = append(all, g)
 			}
 		}
-		if p.Pkg.Path() == rtPath {
+		if strings.HasSuffix(p.Pkg.Path(), "/zzverif/verifrt") && (e.rtPkg == nil || p.Pkg.Path() != rtPath) {
 			e.rtPkg = p
 		}
 	}
@@ -216,19 +234,26 @@ func (w *Worker) runPath(s *State) {
 				s.grant = false
 			}
 		}
-		func() {
+		var pending *goPanic
+		catch := func(f func()) {
 			defer func() {
 				if r := recover(); r != nil {
 					gp, ok := r.(goPanic)
 					if !ok {
 						panic(r)
 					}
-					s.panicking, s.panicV = true, gp.v
-					w.unwind(s)
+					pending = &gp
 				}
 			}()
-			w.step(s)
-		}()
+			f()
+		}
+		catch(func() { w.step(s) })
+		for pending != nil { // a Go panic raised by the step, or by a deferred call run while unwinding
+			gp := pending
+			pending = nil
+			s.panicking, s.panicV = true, gp.v
+			catch(func() { w.unwind(s) })
+		}
 		s.steps++
 		if s.steps > maxSteps {
 			unsupported("step limit %d reached (non-terminating path?)", maxSteps)
